@@ -132,7 +132,7 @@ func genHubCase(rr *h.Rand, o *gen.Oracle, focus string) hubCase {
 	p := mkPool(rr, o)
 	if focus == "events" || focus == "api" {
 		cs.Cfg.Subscriptions = true
-		p.sels = append(p.sels, "a b", "x/y?z#w", "é ü", "100%", "a+b", "{weird", "https://example.com/{id}")
+		p.sels = append(p.sels, "a b", "x/y?z#w", "é ü", "100%", "a+b", ".", "..", "a/../b", "a//b", "./x", "{weird", "https://example.com/{id}")
 	}
 	if focus == "events" {
 		watch := claimsJSON("subscribe", []string{"*"}, "w")
